@@ -1259,6 +1259,9 @@ impl<'de, 'd, R: XmlRead<'de>, E: EntityResolver> MapModel<'de> for ElementMapAc
 }
 impl<'de> DeModel<'de> for TextDeserializer<'de> { open spec fn de_ok(&self) -> bool { true } }
 impl<'de> EnumModel<'de> for TextDeserializer<'de> { open spec fn enum_ok(&self) -> bool { true } }
+impl<'de, 'd, R: XmlRead<'de>, E: EntityResolver> EnumModel<'de> for ElementDeserializer<'de, 'd, R, E> {
+    closed spec fn enum_ok(&self) -> bool { self.de.inv() && self.start.name_len <= self.start.buf@.len() }
+}
 impl<'de, 'd, R: XmlRead<'de>, E: EntityResolver> DeModel<'de> for ElementDeserializer<'de, 'd, R, E> {
     closed spec fn de_ok(&self) -> bool { self.de.inv() && self.start.name_len <= self.start.buf@.len() }
 }
@@ -1443,11 +1446,6 @@ where
     R: XmlRead<'de>,
     E: EntityResolver,
 {
-    /// the forwarding `deserialize_tuple` (generated by a serde macro) is not under contract: it needs the invariant, like the rest
-    #[verifier::external_body]
-    pub fn deserialize_tuple<V: Visitor<'de>>(self, len: usize, visitor: V) -> Result<V::Value, DeError>
-        requires self.ok()
-    { unimplemented!() }
 //@extract de::map::MapValueDeserializer::read_string | src/de/map.rs :: impl<'de, 'd, 'm, R, E> MapValueDeserializer<'de, 'd, 'm, R, E> where R: XmlRead<'de>, E: EntityResolver, :: fn read_string | serves=C07 features=serialize
     fn read_string(&mut self) -> (r: Result<Cow<'de, str>, DeError>)
         requires old(self).ok()
@@ -1854,16 +1852,318 @@ where
 impl<'de, 'd, R: XmlRead<'de>, E: EntityResolver> DeModel<'de> for &'d mut Deserializer<'de, R, E> {
     closed spec fn de_ok(&self) -> bool { (**self).inv() }
 }
+// ---- C07: the forwarding network of the top-level deserializer (src/de/mod.rs, `&mut Deserializer`) ----
 impl<'de, R, E> Deserializer<'de, R, E>
 where
     R: XmlRead<'de>,
     E: EntityResolver,
 {
-    /// the forwarding `deserialize_tuple` of `&mut Deserializer` (generated by a serde macro) is not under contract
-    #[verifier::external_body]
-    pub fn deserialize_tuple<V: Visitor<'de>>(&mut self, len: usize, visitor: V) -> Result<V::Value, DeError>
-        requires old(self).inv()
-    { unimplemented!() }
+//@extract de::Deserializer::read_string | src/de/mod.rs :: impl<'de, R, E> Deserializer<'de, R, E> where R: XmlRead<'de>, E: EntityResolver, :: fn read_string | serves=C07 features=serialize
+//@rewrite-opt Self::Error ==> DeError
+    fn read_string(&mut self) -> Result<Cow<'de, str>, DeError>
+        requires old(self).inv(), old(self).peeked_text() || old(self).peeked_start(),
+    {
+        self.read_string_impl(true)
+    }
+//@end
+}
+impl<'de, 'd, R: XmlRead<'de>, E: EntityResolver> SeqModel<'de> for &'d mut Deserializer<'de, R, E> {
+    closed spec fn seq_ok(&self) -> bool { (**self).inv() }
+}
+impl<'de, 'd, R: XmlRead<'de>, E: EntityResolver> EnumModel<'de> for EnumAccess<'de, 'd, R, E> {
+    closed spec fn enum_ok(&self) -> bool { self.de.inv() && (self.de.peeked_text() || self.de.peeked_start()) }
+}
+/// the remaining methods of `impl de::Deserializer for &mut Deserializer`: the same precondition as deserialize_struct /
+/// deserialize_unit (`val_ok`: a Start or a Text has been peeked), because they end there
+pub trait DeDeserializerFwd<'de>: DeDeserializerVal<'de> {
+    fn deserialize_newtype_struct<V: Visitor<'de>>(self, name: &'static str, visitor: V) -> (r: Result<V::Value, DeError>)
+        requires self.val_ok();
+    fn deserialize_enum<V: Visitor<'de>>(self, name: &'static str, variants: &'static [&'static str], visitor: V) -> (r: Result<V::Value, DeError>)
+        requires self.val_ok();
+    fn deserialize_seq<V: Visitor<'de>>(self, visitor: V) -> (r: Result<V::Value, DeError>)
+        requires self.val_ok();
+    fn deserialize_any<V: Visitor<'de>>(self, visitor: V) -> (r: Result<V::Value, DeError>)
+        requires self.val_ok();
+    fn deserialize_bool<V: Visitor<'de>>(self, visitor: V) -> (r: Result<V::Value, DeError>)
+        requires self.val_ok();
+    fn deserialize_char<V: Visitor<'de>>(self, visitor: V) -> (r: Result<V::Value, DeError>)
+        requires self.val_ok();
+    fn deserialize_str<V: Visitor<'de>>(self, visitor: V) -> (r: Result<V::Value, DeError>)
+        requires self.val_ok();
+    fn deserialize_string<V: Visitor<'de>>(self, visitor: V) -> (r: Result<V::Value, DeError>)
+        requires self.val_ok();
+    fn deserialize_bytes<V: Visitor<'de>>(self, visitor: V) -> (r: Result<V::Value, DeError>)
+        requires self.val_ok();
+    fn deserialize_byte_buf<V: Visitor<'de>>(self, visitor: V) -> (r: Result<V::Value, DeError>)
+        requires self.val_ok();
+    fn deserialize_unit_struct<V: Visitor<'de>>(self, name: &'static str, visitor: V) -> (r: Result<V::Value, DeError>)
+        requires self.val_ok();
+    fn deserialize_tuple<V: Visitor<'de>>(self, len: usize, visitor: V) -> (r: Result<V::Value, DeError>)
+        requires self.val_ok();
+    fn deserialize_tuple_struct<V: Visitor<'de>>(self, name: &'static str, len: usize, visitor: V) -> (r: Result<V::Value, DeError>)
+        requires self.val_ok();
+    fn deserialize_map<V: Visitor<'de>>(self, visitor: V) -> (r: Result<V::Value, DeError>)
+        requires self.val_ok();
+    fn deserialize_identifier<V: Visitor<'de>>(self, visitor: V) -> (r: Result<V::Value, DeError>)
+        requires self.val_ok();
+    fn deserialize_ignored_any<V: Visitor<'de>>(self, visitor: V) -> (r: Result<V::Value, DeError>)
+        requires self.val_ok();
+}
+impl<'de, 'a, R, E> DeDeserializerFwd<'de> for &'a mut Deserializer<'de, R, E>
+where
+    R: XmlRead<'de>,
+    E: EntityResolver,
+{
+//@extract de::Deserializer::deserialize_newtype_struct | src/de/mod.rs :: impl<'de, 'a, R, E> de::Deserializer<'de> for &'a mut Deserializer<'de, R, E> where R: XmlRead<'de>, E: EntityResolver, :: fn deserialize_newtype_struct | serves=C07 features=serialize
+//@rewrite-opt Self::Error ==> DeError
+    /// Forwards deserialization of the inner type. Always calls [`Visitor::visit_newtype_struct`]
+    /// with the same deserializer.
+    fn deserialize_newtype_struct<V>(
+        self,
+        _name: &'static str,
+        visitor: V,
+    ) -> Result<V::Value, DeError>
+    where
+        V: Visitor<'de>,
+    {
+        visitor.visit_newtype_struct(self)
+    }
+//@end
+//@extract de::Deserializer::deserialize_enum | src/de/mod.rs :: impl<'de, 'a, R, E> de::Deserializer<'de> for &'a mut Deserializer<'de, R, E> where R: XmlRead<'de>, E: EntityResolver, :: fn deserialize_enum | serves=C07 features=serialize
+//@rewrite-opt Self::Error ==> DeError
+//@rewrite var::EnumAccess::new( ==> EnumAccess::new(
+    fn deserialize_enum<V>(
+        self,
+        _name: &'static str,
+        _variants: &'static [&'static str],
+        visitor: V,
+    ) -> Result<V::Value, DeError>
+    where
+        V: Visitor<'de>,
+    {
+        visitor.visit_enum(EnumAccess::new(self))
+    }
+//@end
+//@extract de::Deserializer::deserialize_seq | src/de/mod.rs :: impl<'de, 'a, R, E> de::Deserializer<'de> for &'a mut Deserializer<'de, R, E> where R: XmlRead<'de>, E: EntityResolver, :: fn deserialize_seq | serves=C07 features=serialize
+//@rewrite-opt Self::Error ==> DeError
+    fn deserialize_seq<V>(self, visitor: V) -> Result<V::Value, DeError>
+    where
+        V: Visitor<'de>,
+    {
+        visitor.visit_seq(self)
+    }
+//@end
+//@extract de::Deserializer::deserialize_any | src/de/mod.rs :: impl<'de, 'a, R, E> de::Deserializer<'de> for &'a mut Deserializer<'de, R, E> where R: XmlRead<'de>, E: EntityResolver, :: fn deserialize_any | serves=C07 features=serialize
+//@rewrite-opt Self::Error ==> DeError
+    fn deserialize_any<V>(self, visitor: V) -> Result<V::Value, DeError>
+    where
+        V: Visitor<'de>,
+    {
+        match self.peek()? {
+            DeEvent::Text(_) => self.deserialize_str(visitor),
+            _ => self.deserialize_map(visitor),
+        }
+    }
+//@end
+//@extract de::Deserializer::deserialize_bool | src/de/mod.rs :: impl<'de, 'a, R, E> de::Deserializer<'de> for &'a mut Deserializer<'de, R, E> where R: XmlRead<'de>, E: EntityResolver, :: invoke deserialize_primitives :: fn deserialize_bool | serves=C07 features=serialize
+//@rewrite-opt Self::Error ==> DeError
+        fn deserialize_bool<V>( self, visitor: V) -> Result<V::Value, DeError>
+        where
+            V: Visitor<'de>,
+        {
+            let text = match self.read_string()? {
+                Cow::Borrowed(s) => CowRef::Input(s),
+                Cow::Owned(s) => CowRef::Owned(s),
+            };
+            text.deserialize_bool(visitor)
+        }
+//@end
+//@extract de::Deserializer::deserialize_char | src/de/mod.rs :: impl<'de, 'a, R, E> de::Deserializer<'de> for &'a mut Deserializer<'de, R, E> where R: XmlRead<'de>, E: EntityResolver, :: invoke deserialize_primitives :: fn deserialize_char | serves=C07 features=serialize
+//@rewrite-opt Self::Error ==> DeError
+        fn deserialize_char<V>(self, visitor: V) -> Result<V::Value, DeError>
+        where
+            V: Visitor<'de>,
+        {
+            self.deserialize_str(visitor)
+        }
+//@end
+//@extract de::Deserializer::deserialize_str | src/de/mod.rs :: impl<'de, 'a, R, E> de::Deserializer<'de> for &'a mut Deserializer<'de, R, E> where R: XmlRead<'de>, E: EntityResolver, :: invoke deserialize_primitives :: fn deserialize_str | serves=C07 features=serialize
+//@rewrite-opt Self::Error ==> DeError
+        fn deserialize_str<V>( self, visitor: V) -> Result<V::Value, DeError>
+        where
+            V: Visitor<'de>,
+        {
+            let text = self.read_string()?;
+            match text {
+                Cow::Borrowed(string) => visitor.visit_borrowed_str(string),
+                Cow::Owned(string) => visitor.visit_string(string),
+            }
+        }
+//@end
+//@extract de::Deserializer::deserialize_string | src/de/mod.rs :: impl<'de, 'a, R, E> de::Deserializer<'de> for &'a mut Deserializer<'de, R, E> where R: XmlRead<'de>, E: EntityResolver, :: invoke deserialize_primitives :: fn deserialize_string | serves=C07 features=serialize
+//@rewrite-opt Self::Error ==> DeError
+        fn deserialize_string<V>(self, visitor: V) -> Result<V::Value, DeError>
+        where
+            V: Visitor<'de>,
+        {
+            self.deserialize_str(visitor)
+        }
+//@end
+//@extract de::Deserializer::deserialize_bytes | src/de/mod.rs :: impl<'de, 'a, R, E> de::Deserializer<'de> for &'a mut Deserializer<'de, R, E> where R: XmlRead<'de>, E: EntityResolver, :: invoke deserialize_primitives :: fn deserialize_bytes | serves=C07 features=serialize
+//@rewrite-opt Self::Error ==> DeError
+        fn deserialize_bytes<V>(self, visitor: V) -> Result<V::Value, DeError>
+        where
+            V: Visitor<'de>,
+        {
+            self.deserialize_any(visitor)
+        }
+//@end
+//@extract de::Deserializer::deserialize_byte_buf | src/de/mod.rs :: impl<'de, 'a, R, E> de::Deserializer<'de> for &'a mut Deserializer<'de, R, E> where R: XmlRead<'de>, E: EntityResolver, :: invoke deserialize_primitives :: fn deserialize_byte_buf | serves=C07 features=serialize
+//@rewrite-opt Self::Error ==> DeError
+        fn deserialize_byte_buf<V>(self, visitor: V) -> Result<V::Value, DeError>
+        where
+            V: Visitor<'de>,
+        {
+            self.deserialize_bytes(visitor)
+        }
+//@end
+//@extract de::Deserializer::deserialize_unit_struct | src/de/mod.rs :: impl<'de, 'a, R, E> de::Deserializer<'de> for &'a mut Deserializer<'de, R, E> where R: XmlRead<'de>, E: EntityResolver, :: invoke deserialize_primitives :: fn deserialize_unit_struct | serves=C07 features=serialize
+//@rewrite-opt Self::Error ==> DeError
+        fn deserialize_unit_struct<V>(
+            self,
+            _name: &'static str,
+            visitor: V,
+        ) -> Result<V::Value, DeError>
+        where
+            V: Visitor<'de>,
+        {
+            self.deserialize_unit(visitor)
+        }
+//@end
+//@extract de::Deserializer::deserialize_tuple | src/de/mod.rs :: impl<'de, 'a, R, E> de::Deserializer<'de> for &'a mut Deserializer<'de, R, E> where R: XmlRead<'de>, E: EntityResolver, :: invoke deserialize_primitives :: fn deserialize_tuple | serves=C07 features=serialize
+//@rewrite-opt Self::Error ==> DeError
+        fn deserialize_tuple<V>(self, _len: usize, visitor: V) -> Result<V::Value, DeError>
+        where
+            V: Visitor<'de>,
+        {
+            self.deserialize_seq(visitor)
+        }
+//@end
+//@extract de::Deserializer::deserialize_tuple_struct | src/de/mod.rs :: impl<'de, 'a, R, E> de::Deserializer<'de> for &'a mut Deserializer<'de, R, E> where R: XmlRead<'de>, E: EntityResolver, :: invoke deserialize_primitives :: fn deserialize_tuple_struct | serves=C07 features=serialize
+//@rewrite-opt Self::Error ==> DeError
+        fn deserialize_tuple_struct<V>(
+            self,
+            _name: &'static str,
+            len: usize,
+            visitor: V,
+        ) -> Result<V::Value, DeError>
+        where
+            V: Visitor<'de>,
+        {
+            self.deserialize_tuple(len, visitor)
+        }
+//@end
+//@extract de::Deserializer::deserialize_map | src/de/mod.rs :: impl<'de, 'a, R, E> de::Deserializer<'de> for &'a mut Deserializer<'de, R, E> where R: XmlRead<'de>, E: EntityResolver, :: invoke deserialize_primitives :: fn deserialize_map | serves=C07 features=serialize
+//@rewrite-opt Self::Error ==> DeError
+        fn deserialize_map<V>(self, visitor: V) -> Result<V::Value, DeError>
+        where
+            V: Visitor<'de>,
+        {
+            self.deserialize_struct("", &[], visitor)
+        }
+//@end
+//@extract de::Deserializer::deserialize_identifier | src/de/mod.rs :: impl<'de, 'a, R, E> de::Deserializer<'de> for &'a mut Deserializer<'de, R, E> where R: XmlRead<'de>, E: EntityResolver, :: invoke deserialize_primitives :: fn deserialize_identifier | serves=C07 features=serialize
+//@rewrite-opt Self::Error ==> DeError
+        fn deserialize_identifier<V>(self, visitor: V) -> Result<V::Value, DeError>
+        where
+            V: Visitor<'de>,
+        {
+            self.deserialize_str(visitor)
+        }
+//@end
+//@extract de::Deserializer::deserialize_ignored_any | src/de/mod.rs :: impl<'de, 'a, R, E> de::Deserializer<'de> for &'a mut Deserializer<'de, R, E> where R: XmlRead<'de>, E: EntityResolver, :: invoke deserialize_primitives :: fn deserialize_ignored_any | serves=C07 features=serialize
+//@rewrite-opt Self::Error ==> DeError
+        fn deserialize_ignored_any<V>(self, visitor: V) -> Result<V::Value, DeError>
+        where
+            V: Visitor<'de>,
+        {
+            self.deserialize_unit(visitor)
+        }
+//@end
+}
+/// the top-level sequence: `impl SeqAccess for &mut Deserializer`
+pub trait SeqAccessTop<'de>: Sized {
+    spec fn sa_ok(&self) -> bool;
+    fn next_element_seed<T: DeserializeSeed<'de>>(&mut self, seed: T) -> (r: Result<Option<T::Value>, DeError>)
+        requires old(self).sa_ok();
+}
+impl<'de, 'a, R, E> SeqAccessTop<'de> for &'a mut Deserializer<'de, R, E>
+where
+    R: XmlRead<'de>,
+    E: EntityResolver,
+{
+    closed spec fn sa_ok(&self) -> bool { (**self).inv() }
+//@extract de::Deserializer::next_element_seed | src/de/mod.rs :: impl<'de, 'a, R, E> SeqAccess<'de> for &'a mut Deserializer<'de, R, E> where R: XmlRead<'de>, E: EntityResolver, :: fn next_element_seed | serves=C07 features=serialize
+//@rewrite-opt Self::Error ==> DeError
+//@rewrite-all .map(Some) ==> .map(|v__: T::Value| Some(v__))
+    fn next_element_seed<T>(&mut self, seed: T) -> Result<Option<T::Value>, DeError>
+    where
+        T: DeserializeSeed<'de>,
+    {
+        match self.peek()? {
+            DeEvent::Eof => {
+                // We need to consume event in order to self.is_empty() worked
+                self.next()?;
+                Ok(None)
+            }
+
+            // Start(tag), End(tag), Text
+            _ => seed.deserialize(&mut **self).map(|v__: T::Value| Some(v__)),
+        }
+    }
+//@end
+}
+impl<'de, 'd, R, E> EnumAccess<'de, 'd, R, E>
+where
+    R: XmlRead<'de>,
+    E: EntityResolver,
+{
+//@extract de::var::EnumAccess::variant_seed | src/de/var.rs :: impl<'de, 'd, R, E> de::EnumAccess<'de> for EnumAccess<'de, 'd, R, E> where R: XmlRead<'de>, E: EntityResolver, :: fn variant_seed | serves=C07 features=serialize
+//@rewrite-opt Self::Error ==> DeError
+//@rewrite Self::Variant ==> VariantAccess<'de, 'd, R, E>
+//@rewrite-all BorrowedStrDeserializer::<DeError>::new( ==> BorrowedStrDeserializer::new(
+//@rewrite e.raw_name() ==> e.name().0
+    fn variant_seed<V>(self, seed: V) -> (r: Result<(V::Value, VariantAccess<'de, 'd, R, E>), DeError>)
+    where
+        V: DeserializeSeed<'de>,
+        requires self.enum_ok(),
+        // established at construction: the accessor handed to foreign code satisfies its type invariant
+        ensures r matches Ok(p) ==> p.1.ok(),
+    {
+        let decoder = self.de.reader.decoder();
+        let (name, is_text) = match self.de.peek()? {
+            DeEvent::Start(e) => (
+                seed.deserialize(QNameDeserializer::from_elem(e.name().0, decoder)?)?,
+                false,
+            ),
+            DeEvent::Text(_) => (
+                seed.deserialize(BorrowedStrDeserializer::new(TEXT_KEY))?,
+                true,
+            ),
+            // SAFETY: The reader is guaranteed that we don't have unmatched tags
+            // If we here, then out deserializer has a bug
+            DeEvent::End(e) => unreachable!(),
+            DeEvent::Eof => return Err(DeError::UnexpectedEof),
+        };
+        Ok((
+            name,
+            VariantAccess {
+                de: self.de,
+                is_text,
+            },
+        ))
+    }
+//@end
 }
 impl<'de, 'd, R, E> VariantAccess<'de, 'd, R, E>
 where
@@ -2243,6 +2543,535 @@ impl<'de> TextDeserializer<'de> {
     ) -> Result<V::Value, DeError>
     where
         V: Visitor<'de>,
+    {
+        self.deserialize_struct("", fields, visitor)
+    }
+//@end
+}
+
+// ---- C07: the forwarding network of the value deserializer of a map (src/de/map.rs, MapValueDeserializer) ----
+impl<'de, 'd, R, E> ElementMapAccess<'de, 'd, R, E>
+where
+    R: XmlRead<'de>,
+    E: EntityResolver,
+{
+//@extract de::map::ElementMapAccess::should_skip_subtree | src/de/map.rs :: impl<'de, 'd, R, E> ElementMapAccess<'de, 'd, R, E> where R: XmlRead<'de>, E: EntityResolver, :: fn should_skip_subtree | serves=C07 features=serialize
+//@rewrite-opt Self::Error ==> DeError
+    /// Determines if subtree started with the specified event shoould be skipped.
+    ///
+    /// Used to map elements with `xsi:nil` attribute set to true to `None` in optional contexts.
+    ///
+    /// We need to handle two attributes:
+    /// - on parent element: <map xsi:nil="true"><foo/></map>
+    /// - on this element:   <map><foo xsi:nil="true"/></map>
+    ///
+    /// We check parent element too because `xsi:nil` affects only nested elements of the
+    /// tag where it is defined. We can map structure with fields mapped to attributes to
+    /// the `<map>` element and set to `None` all its optional elements.
+    fn should_skip_subtree(&self, start: &BytesStart) -> bool {
+        self.de.reader.reader.has_nil_attr(&self.start) || self.de.reader.reader.has_nil_attr(start)
+    }
+//@end
+}
+impl<'de, 'd, 'm, R, E> MapValueDeserializer<'de, 'd, 'm, R, E>
+where
+    R: XmlRead<'de>,
+    E: EntityResolver,
+{
+//@extract de::map::MapValueDeserializer::deserialize_option | src/de/map.rs :: impl<'de, 'd, 'm, R, E> de::Deserializer<'de> for MapValueDeserializer<'de, 'd, 'm, R, E> where R: XmlRead<'de>, E: EntityResolver, :: fn deserialize_option | serves=C07 features=serialize
+//@rewrite-opt Self::Error ==> DeError
+    fn deserialize_option<V>(self, visitor: V) -> Result<V::Value, DeError>
+    where
+        V: Visitor<'de>,
+        requires self.ok(),
+    {
+        // We cannot use result of `peek()` directly because of borrow checker
+        let _ = self.map.de.peek()?;
+        match self.map.de.last_peeked() {
+            DeEvent::Text(t) if t.is_empty() => visitor.visit_none(),
+            DeEvent::Start(start) if self.map.should_skip_subtree(start) => {
+                self.map.de.skip_next_tree()?;
+                visitor.visit_none()
+            }
+            _ => visitor.visit_some(self),
+        }
+    }
+//@end
+//@extract de::map::MapValueDeserializer::deserialize_newtype_struct | src/de/map.rs :: impl<'de, 'd, 'm, R, E> de::Deserializer<'de> for MapValueDeserializer<'de, 'd, 'm, R, E> where R: XmlRead<'de>, E: EntityResolver, :: fn deserialize_newtype_struct | serves=C07 features=serialize
+//@rewrite-opt Self::Error ==> DeError
+    /// Forwards deserialization of the inner type. Always calls [`Visitor::visit_newtype_struct`]
+    /// with the same deserializer.
+    fn deserialize_newtype_struct<V>(
+        self,
+        _name: &'static str,
+        visitor: V,
+    ) -> Result<V::Value, DeError>
+    where
+        V: Visitor<'de>,
+        requires self.ok(),
+    {
+        visitor.visit_newtype_struct(self)
+    }
+//@end
+//@extract de::map::MapValueDeserializer::deserialize_any | src/de/map.rs :: impl<'de, 'd, 'm, R, E> de::Deserializer<'de> for MapValueDeserializer<'de, 'd, 'm, R, E> where R: XmlRead<'de>, E: EntityResolver, :: fn deserialize_any | serves=C07 features=serialize
+//@rewrite-opt Self::Error ==> DeError
+    fn deserialize_any<V>(self, visitor: V) -> Result<V::Value, DeError>
+    where
+        V: Visitor<'de>,
+        requires self.ok(),
+    {
+        match self.map.de.peek()? {
+            DeEvent::Text(_) => self.deserialize_str(visitor),
+            _ => self.deserialize_map(visitor),
+        }
+    }
+//@end
+//@extract de::map::MapValueDeserializer::deserialize_bool | src/de/map.rs :: impl<'de, 'd, 'm, R, E> de::Deserializer<'de> for MapValueDeserializer<'de, 'd, 'm, R, E> where R: XmlRead<'de>, E: EntityResolver, :: invoke deserialize_primitives :: fn deserialize_bool | serves=C07 features=serialize macro_files=src/de/mod.rs
+//@rewrite-opt Self::Error ==> DeError
+        fn deserialize_bool<V>(self, visitor: V) -> Result<V::Value, DeError>
+        where
+            V: Visitor<'de>,
+            requires self.ok(),
+        { let mut self__ = self;
+            let text = match self__.read_string()? {
+                Cow::Borrowed(s) => CowRef::Input(s),
+                Cow::Owned(s) => CowRef::Owned(s),
+            };
+            text.deserialize_bool(visitor)
+        }
+//@end
+//@extract de::map::MapValueDeserializer::deserialize_char | src/de/map.rs :: impl<'de, 'd, 'm, R, E> de::Deserializer<'de> for MapValueDeserializer<'de, 'd, 'm, R, E> where R: XmlRead<'de>, E: EntityResolver, :: invoke deserialize_primitives :: fn deserialize_char | serves=C07 features=serialize macro_files=src/de/mod.rs
+//@rewrite-opt Self::Error ==> DeError
+        fn deserialize_char<V>(self, visitor: V) -> Result<V::Value, DeError>
+        where
+            V: Visitor<'de>,
+            requires self.ok(),
+        {
+            self.deserialize_str(visitor)
+        }
+//@end
+//@extract de::map::MapValueDeserializer::deserialize_str | src/de/map.rs :: impl<'de, 'd, 'm, R, E> de::Deserializer<'de> for MapValueDeserializer<'de, 'd, 'm, R, E> where R: XmlRead<'de>, E: EntityResolver, :: invoke deserialize_primitives :: fn deserialize_str | serves=C07 features=serialize macro_files=src/de/mod.rs
+//@rewrite-opt Self::Error ==> DeError
+        fn deserialize_str<V>(self, visitor: V) -> Result<V::Value, DeError>
+        where
+            V: Visitor<'de>,
+            requires self.ok(),
+        { let mut self__ = self;
+            let text = self__.read_string()?;
+            match text {
+                Cow::Borrowed(string) => visitor.visit_borrowed_str(string),
+                Cow::Owned(string) => visitor.visit_string(string),
+            }
+        }
+//@end
+//@extract de::map::MapValueDeserializer::deserialize_string | src/de/map.rs :: impl<'de, 'd, 'm, R, E> de::Deserializer<'de> for MapValueDeserializer<'de, 'd, 'm, R, E> where R: XmlRead<'de>, E: EntityResolver, :: invoke deserialize_primitives :: fn deserialize_string | serves=C07 features=serialize macro_files=src/de/mod.rs
+//@rewrite-opt Self::Error ==> DeError
+        fn deserialize_string<V>(self, visitor: V) -> Result<V::Value, DeError>
+        where
+            V: Visitor<'de>,
+            requires self.ok(),
+        {
+            self.deserialize_str(visitor)
+        }
+//@end
+//@extract de::map::MapValueDeserializer::deserialize_bytes | src/de/map.rs :: impl<'de, 'd, 'm, R, E> de::Deserializer<'de> for MapValueDeserializer<'de, 'd, 'm, R, E> where R: XmlRead<'de>, E: EntityResolver, :: invoke deserialize_primitives :: fn deserialize_bytes | serves=C07 features=serialize macro_files=src/de/mod.rs
+//@rewrite-opt Self::Error ==> DeError
+        fn deserialize_bytes<V>(self, visitor: V) -> Result<V::Value, DeError>
+        where
+            V: Visitor<'de>,
+            requires self.ok(),
+        {
+            self.deserialize_any(visitor)
+        }
+//@end
+//@extract de::map::MapValueDeserializer::deserialize_byte_buf | src/de/map.rs :: impl<'de, 'd, 'm, R, E> de::Deserializer<'de> for MapValueDeserializer<'de, 'd, 'm, R, E> where R: XmlRead<'de>, E: EntityResolver, :: invoke deserialize_primitives :: fn deserialize_byte_buf | serves=C07 features=serialize macro_files=src/de/mod.rs
+//@rewrite-opt Self::Error ==> DeError
+        fn deserialize_byte_buf<V>(self, visitor: V) -> Result<V::Value, DeError>
+        where
+            V: Visitor<'de>,
+            requires self.ok(),
+        {
+            self.deserialize_bytes(visitor)
+        }
+//@end
+//@extract de::map::MapValueDeserializer::deserialize_unit_struct | src/de/map.rs :: impl<'de, 'd, 'm, R, E> de::Deserializer<'de> for MapValueDeserializer<'de, 'd, 'm, R, E> where R: XmlRead<'de>, E: EntityResolver, :: invoke deserialize_primitives :: fn deserialize_unit_struct | serves=C07 features=serialize macro_files=src/de/mod.rs
+//@rewrite-opt Self::Error ==> DeError
+        fn deserialize_unit_struct<V>(
+            self,
+            _name: &'static str,
+            visitor: V,
+        ) -> Result<V::Value, DeError>
+        where
+            V: Visitor<'de>,
+            requires self.ok(),
+        {
+            self.deserialize_unit(visitor)
+        }
+//@end
+//@extract de::map::MapValueDeserializer::deserialize_tuple | src/de/map.rs :: impl<'de, 'd, 'm, R, E> de::Deserializer<'de> for MapValueDeserializer<'de, 'd, 'm, R, E> where R: XmlRead<'de>, E: EntityResolver, :: invoke deserialize_primitives :: fn deserialize_tuple | serves=C07 features=serialize macro_files=src/de/mod.rs
+//@rewrite-opt Self::Error ==> DeError
+        fn deserialize_tuple<V>(self, _len: usize, visitor: V) -> Result<V::Value, DeError>
+        where
+            V: Visitor<'de>,
+            requires self.ok(),
+        {
+            self.deserialize_seq(visitor)
+        }
+//@end
+//@extract de::map::MapValueDeserializer::deserialize_tuple_struct | src/de/map.rs :: impl<'de, 'd, 'm, R, E> de::Deserializer<'de> for MapValueDeserializer<'de, 'd, 'm, R, E> where R: XmlRead<'de>, E: EntityResolver, :: invoke deserialize_primitives :: fn deserialize_tuple_struct | serves=C07 features=serialize macro_files=src/de/mod.rs
+//@rewrite-opt Self::Error ==> DeError
+        fn deserialize_tuple_struct<V>(
+            self,
+            _name: &'static str,
+            len: usize,
+            visitor: V,
+        ) -> Result<V::Value, DeError>
+        where
+            V: Visitor<'de>,
+            requires self.ok(),
+        {
+            self.deserialize_tuple(len, visitor)
+        }
+//@end
+//@extract de::map::MapValueDeserializer::deserialize_map | src/de/map.rs :: impl<'de, 'd, 'm, R, E> de::Deserializer<'de> for MapValueDeserializer<'de, 'd, 'm, R, E> where R: XmlRead<'de>, E: EntityResolver, :: invoke deserialize_primitives :: fn deserialize_map | serves=C07 features=serialize macro_files=src/de/mod.rs
+//@rewrite-opt Self::Error ==> DeError
+        fn deserialize_map<V>(self, visitor: V) -> Result<V::Value, DeError>
+        where
+            V: Visitor<'de>,
+            requires self.ok(),
+        {
+            self.deserialize_struct("", &[], visitor)
+        }
+//@end
+//@extract de::map::MapValueDeserializer::deserialize_identifier | src/de/map.rs :: impl<'de, 'd, 'm, R, E> de::Deserializer<'de> for MapValueDeserializer<'de, 'd, 'm, R, E> where R: XmlRead<'de>, E: EntityResolver, :: invoke deserialize_primitives :: fn deserialize_identifier | serves=C07 features=serialize macro_files=src/de/mod.rs
+//@rewrite-opt Self::Error ==> DeError
+        fn deserialize_identifier<V>(self, visitor: V) -> Result<V::Value, DeError>
+        where
+            V: Visitor<'de>,
+            requires self.ok(),
+        {
+            self.deserialize_str(visitor)
+        }
+//@end
+//@extract de::map::MapValueDeserializer::deserialize_ignored_any | src/de/map.rs :: impl<'de, 'd, 'm, R, E> de::Deserializer<'de> for MapValueDeserializer<'de, 'd, 'm, R, E> where R: XmlRead<'de>, E: EntityResolver, :: invoke deserialize_primitives :: fn deserialize_ignored_any | serves=C07 features=serialize macro_files=src/de/mod.rs
+//@rewrite-opt Self::Error ==> DeError
+        fn deserialize_ignored_any<V>(self, visitor: V) -> Result<V::Value, DeError>
+        where
+            V: Visitor<'de>,
+            requires self.ok(),
+        {
+            self.deserialize_unit(visitor)
+        }
+//@end
+}
+// ---- C07: the forwarding network of the deserializer of one element of a mixed sequence (src/de/map.rs, ElementDeserializer) ----
+impl<'de, 'd, R, E> ElementDeserializer<'de, 'd, R, E>
+where
+    R: XmlRead<'de>,
+    E: EntityResolver,
+{
+//@extract de::map::ElementDeserializer::read_string | src/de/map.rs :: impl<'de, 'd, R, E> ElementDeserializer<'de, 'd, R, E> where R: XmlRead<'de>, E: EntityResolver, :: fn read_string | serves=C07 features=serialize
+//@rewrite-opt Self::Error ==> DeError
+    fn read_string(&mut self) -> Result<Cow<'de, str>, DeError>
+        requires old(self).de_ok(),
+    {
+        self.de.read_text(self.start.name())
+    }
+//@end
+//@extract de::map::ElementDeserializer::deserialize_unit | src/de/map.rs :: impl<'de, 'd, R, E> de::Deserializer<'de> for ElementDeserializer<'de, 'd, R, E> where R: XmlRead<'de>, E: EntityResolver, :: fn deserialize_unit | serves=C07 features=serialize
+//@rewrite-opt Self::Error ==> DeError
+    fn deserialize_unit<V>(self, visitor: V) -> Result<V::Value, DeError>
+    where
+        V: Visitor<'de>,
+        requires self.de_ok(),
+    {
+        // Consume subtree
+        self.de.read_to_end(self.start.name())?;
+        visitor.visit_unit()
+    }
+//@end
+//@extract de::map::ElementDeserializer::deserialize_option | src/de/map.rs :: impl<'de, 'd, R, E> de::Deserializer<'de> for ElementDeserializer<'de, 'd, R, E> where R: XmlRead<'de>, E: EntityResolver, :: fn deserialize_option | serves=C07 features=serialize
+//@rewrite-opt Self::Error ==> DeError
+    fn deserialize_option<V>(self, visitor: V) -> Result<V::Value, DeError>
+    where
+        V: Visitor<'de>,
+        requires self.de_ok(),
+    {
+        visitor.visit_some(self)
+    }
+//@end
+//@extract de::map::ElementDeserializer::deserialize_newtype_struct | src/de/map.rs :: impl<'de, 'd, R, E> de::Deserializer<'de> for ElementDeserializer<'de, 'd, R, E> where R: XmlRead<'de>, E: EntityResolver, :: fn deserialize_newtype_struct | serves=C07 features=serialize
+//@rewrite-opt Self::Error ==> DeError
+    /// Forwards deserialization of the inner type. Always calls [`Visitor::visit_newtype_struct`]
+    /// with this deserializer.
+    fn deserialize_newtype_struct<V>(
+        self,
+        _name: &'static str,
+        visitor: V,
+    ) -> Result<V::Value, DeError>
+    where
+        V: Visitor<'de>,
+        requires self.de_ok(),
+    {
+        visitor.visit_newtype_struct(self)
+    }
+//@end
+//@extract de::map::ElementDeserializer::deserialize_seq | src/de/map.rs :: impl<'de, 'd, R, E> de::Deserializer<'de> for ElementDeserializer<'de, 'd, R, E> where R: XmlRead<'de>, E: EntityResolver, :: fn deserialize_seq | serves=C07 features=serialize
+//@rewrite-opt Self::Error ==> DeError
+    /// This method deserializes a sequence inside of element that itself is a
+    /// sequence element:
+    ///
+    /// ```xml
+    /// <>
+    ///   ...
+    ///   <self>inner sequence</self>
+    ///   <self>inner sequence</self>
+    ///   <self>inner sequence</self>
+    ///   ...
+    /// </>
+    /// ```
+    fn deserialize_seq<V>(self, visitor: V) -> Result<V::Value, DeError>
+    where
+        V: Visitor<'de>,
+        requires self.de_ok(),
+    { let mut self__ = self;
+        let text = self__.read_string()?;
+        SimpleTypeDeserializer::from_text(text).deserialize_seq(visitor)
+    }
+//@end
+//@extract de::map::ElementDeserializer::deserialize_struct | src/de/map.rs :: impl<'de, 'd, R, E> de::Deserializer<'de> for ElementDeserializer<'de, 'd, R, E> where R: XmlRead<'de>, E: EntityResolver, :: fn deserialize_struct | serves=C07 features=serialize
+//@rewrite-opt Self::Error ==> DeError
+    fn deserialize_struct<V>(
+        self,
+        _name: &'static str,
+        fields: &'static [&'static str],
+        visitor: V,
+    ) -> Result<V::Value, DeError>
+    where
+        V: Visitor<'de>,
+        requires self.de_ok(),
+    {
+        visitor.visit_map(ElementMapAccess::new(self.de, self.start, fields)?)
+    }
+//@end
+//@extract de::map::ElementDeserializer::deserialize_enum | src/de/map.rs :: impl<'de, 'd, R, E> de::Deserializer<'de> for ElementDeserializer<'de, 'd, R, E> where R: XmlRead<'de>, E: EntityResolver, :: fn deserialize_enum | serves=C07 features=serialize
+//@rewrite-opt Self::Error ==> DeError
+    fn deserialize_enum<V>(
+        self,
+        _name: &'static str,
+        _variants: &'static [&'static str],
+        visitor: V,
+    ) -> Result<V::Value, DeError>
+    where
+        V: Visitor<'de>,
+        requires self.de_ok(),
+    {
+        visitor.visit_enum(self)
+    }
+//@end
+//@extract de::map::ElementDeserializer::deserialize_any | src/de/map.rs :: impl<'de, 'd, R, E> de::Deserializer<'de> for ElementDeserializer<'de, 'd, R, E> where R: XmlRead<'de>, E: EntityResolver, :: fn deserialize_any | serves=C07 features=serialize
+//@rewrite-opt Self::Error ==> DeError
+    fn deserialize_any<V>(self, visitor: V) -> Result<V::Value, DeError>
+    where
+        V: Visitor<'de>,
+        requires self.de_ok(),
+    {
+        self.deserialize_map(visitor)
+    }
+//@end
+//@extract de::map::ElementDeserializer::deserialize_bool | src/de/map.rs :: impl<'de, 'd, R, E> de::Deserializer<'de> for ElementDeserializer<'de, 'd, R, E> where R: XmlRead<'de>, E: EntityResolver, :: invoke deserialize_primitives :: fn deserialize_bool | serves=C07 features=serialize macro_files=src/de/mod.rs
+//@rewrite-opt Self::Error ==> DeError
+        fn deserialize_bool<V>(self, visitor: V) -> Result<V::Value, DeError>
+        where
+            V: Visitor<'de>,
+            requires self.de_ok(),
+        { let mut self__ = self;
+            let text = match self__.read_string()? {
+                Cow::Borrowed(s) => CowRef::Input(s),
+                Cow::Owned(s) => CowRef::Owned(s),
+            };
+            text.deserialize_bool(visitor)
+        }
+//@end
+//@extract de::map::ElementDeserializer::deserialize_char | src/de/map.rs :: impl<'de, 'd, R, E> de::Deserializer<'de> for ElementDeserializer<'de, 'd, R, E> where R: XmlRead<'de>, E: EntityResolver, :: invoke deserialize_primitives :: fn deserialize_char | serves=C07 features=serialize macro_files=src/de/mod.rs
+//@rewrite-opt Self::Error ==> DeError
+        fn deserialize_char<V>(self, visitor: V) -> Result<V::Value, DeError>
+        where
+            V: Visitor<'de>,
+            requires self.de_ok(),
+        {
+            self.deserialize_str(visitor)
+        }
+//@end
+//@extract de::map::ElementDeserializer::deserialize_str | src/de/map.rs :: impl<'de, 'd, R, E> de::Deserializer<'de> for ElementDeserializer<'de, 'd, R, E> where R: XmlRead<'de>, E: EntityResolver, :: invoke deserialize_primitives :: fn deserialize_str | serves=C07 features=serialize macro_files=src/de/mod.rs
+//@rewrite-opt Self::Error ==> DeError
+        fn deserialize_str<V>(self, visitor: V) -> Result<V::Value, DeError>
+        where
+            V: Visitor<'de>,
+            requires self.de_ok(),
+        { let mut self__ = self;
+            let text = self__.read_string()?;
+            match text {
+                Cow::Borrowed(string) => visitor.visit_borrowed_str(string),
+                Cow::Owned(string) => visitor.visit_string(string),
+            }
+        }
+//@end
+//@extract de::map::ElementDeserializer::deserialize_string | src/de/map.rs :: impl<'de, 'd, R, E> de::Deserializer<'de> for ElementDeserializer<'de, 'd, R, E> where R: XmlRead<'de>, E: EntityResolver, :: invoke deserialize_primitives :: fn deserialize_string | serves=C07 features=serialize macro_files=src/de/mod.rs
+//@rewrite-opt Self::Error ==> DeError
+        fn deserialize_string<V>(self, visitor: V) -> Result<V::Value, DeError>
+        where
+            V: Visitor<'de>,
+            requires self.de_ok(),
+        {
+            self.deserialize_str(visitor)
+        }
+//@end
+//@extract de::map::ElementDeserializer::deserialize_bytes | src/de/map.rs :: impl<'de, 'd, R, E> de::Deserializer<'de> for ElementDeserializer<'de, 'd, R, E> where R: XmlRead<'de>, E: EntityResolver, :: invoke deserialize_primitives :: fn deserialize_bytes | serves=C07 features=serialize macro_files=src/de/mod.rs
+//@rewrite-opt Self::Error ==> DeError
+        fn deserialize_bytes<V>(self, visitor: V) -> Result<V::Value, DeError>
+        where
+            V: Visitor<'de>,
+            requires self.de_ok(),
+        {
+            self.deserialize_any(visitor)
+        }
+//@end
+//@extract de::map::ElementDeserializer::deserialize_byte_buf | src/de/map.rs :: impl<'de, 'd, R, E> de::Deserializer<'de> for ElementDeserializer<'de, 'd, R, E> where R: XmlRead<'de>, E: EntityResolver, :: invoke deserialize_primitives :: fn deserialize_byte_buf | serves=C07 features=serialize macro_files=src/de/mod.rs
+//@rewrite-opt Self::Error ==> DeError
+        fn deserialize_byte_buf<V>(self, visitor: V) -> Result<V::Value, DeError>
+        where
+            V: Visitor<'de>,
+            requires self.de_ok(),
+        {
+            self.deserialize_bytes(visitor)
+        }
+//@end
+//@extract de::map::ElementDeserializer::deserialize_unit_struct | src/de/map.rs :: impl<'de, 'd, R, E> de::Deserializer<'de> for ElementDeserializer<'de, 'd, R, E> where R: XmlRead<'de>, E: EntityResolver, :: invoke deserialize_primitives :: fn deserialize_unit_struct | serves=C07 features=serialize macro_files=src/de/mod.rs
+//@rewrite-opt Self::Error ==> DeError
+        fn deserialize_unit_struct<V>(
+            self,
+            _name: &'static str,
+            visitor: V,
+        ) -> Result<V::Value, DeError>
+        where
+            V: Visitor<'de>,
+            requires self.de_ok(),
+        {
+            self.deserialize_unit(visitor)
+        }
+//@end
+//@extract de::map::ElementDeserializer::deserialize_tuple | src/de/map.rs :: impl<'de, 'd, R, E> de::Deserializer<'de> for ElementDeserializer<'de, 'd, R, E> where R: XmlRead<'de>, E: EntityResolver, :: invoke deserialize_primitives :: fn deserialize_tuple | serves=C07 features=serialize macro_files=src/de/mod.rs
+//@rewrite-opt Self::Error ==> DeError
+        fn deserialize_tuple<V>(self, _len: usize, visitor: V) -> Result<V::Value, DeError>
+        where
+            V: Visitor<'de>,
+            requires self.de_ok(),
+        {
+            self.deserialize_seq(visitor)
+        }
+//@end
+//@extract de::map::ElementDeserializer::deserialize_tuple_struct | src/de/map.rs :: impl<'de, 'd, R, E> de::Deserializer<'de> for ElementDeserializer<'de, 'd, R, E> where R: XmlRead<'de>, E: EntityResolver, :: invoke deserialize_primitives :: fn deserialize_tuple_struct | serves=C07 features=serialize macro_files=src/de/mod.rs
+//@rewrite-opt Self::Error ==> DeError
+        fn deserialize_tuple_struct<V>(
+            self,
+            _name: &'static str,
+            len: usize,
+            visitor: V,
+        ) -> Result<V::Value, DeError>
+        where
+            V: Visitor<'de>,
+            requires self.de_ok(),
+        {
+            self.deserialize_tuple(len, visitor)
+        }
+//@end
+//@extract de::map::ElementDeserializer::deserialize_map | src/de/map.rs :: impl<'de, 'd, R, E> de::Deserializer<'de> for ElementDeserializer<'de, 'd, R, E> where R: XmlRead<'de>, E: EntityResolver, :: invoke deserialize_primitives :: fn deserialize_map | serves=C07 features=serialize macro_files=src/de/mod.rs
+//@rewrite-opt Self::Error ==> DeError
+        fn deserialize_map<V>(self, visitor: V) -> Result<V::Value, DeError>
+        where
+            V: Visitor<'de>,
+            requires self.de_ok(),
+        {
+            self.deserialize_struct("", &[], visitor)
+        }
+//@end
+//@extract de::map::ElementDeserializer::deserialize_identifier | src/de/map.rs :: impl<'de, 'd, R, E> de::Deserializer<'de> for ElementDeserializer<'de, 'd, R, E> where R: XmlRead<'de>, E: EntityResolver, :: invoke deserialize_primitives :: fn deserialize_identifier | serves=C07 features=serialize macro_files=src/de/mod.rs
+//@rewrite-opt Self::Error ==> DeError
+        fn deserialize_identifier<V>(self, visitor: V) -> Result<V::Value, DeError>
+        where
+            V: Visitor<'de>,
+            requires self.de_ok(),
+        {
+            self.deserialize_str(visitor)
+        }
+//@end
+//@extract de::map::ElementDeserializer::deserialize_ignored_any | src/de/map.rs :: impl<'de, 'd, R, E> de::Deserializer<'de> for ElementDeserializer<'de, 'd, R, E> where R: XmlRead<'de>, E: EntityResolver, :: invoke deserialize_primitives :: fn deserialize_ignored_any | serves=C07 features=serialize macro_files=src/de/mod.rs
+//@rewrite-opt Self::Error ==> DeError
+        fn deserialize_ignored_any<V>(self, visitor: V) -> Result<V::Value, DeError>
+        where
+            V: Visitor<'de>,
+            requires self.de_ok(),
+        {
+            self.deserialize_unit(visitor)
+        }
+//@end
+//@extract de::map::ElementDeserializer::variant_seed | src/de/map.rs :: impl<'de, 'd, R, E> de::EnumAccess<'de> for ElementDeserializer<'de, 'd, R, E> where R: XmlRead<'de>, E: EntityResolver, :: fn variant_seed | serves=C07 features=serialize
+//@rewrite-opt Self::Error ==> DeError
+//@rewrite-opt Self::Variant ==> Self
+//@rewrite self.start.raw_name() ==> self.start.name().0
+    fn variant_seed<V>(self, seed: V) -> (r: Result<(V::Value, Self), DeError>)
+    where
+        V: DeserializeSeed<'de>,
+        requires self.de_ok(),
+        ensures r matches Ok(p) ==> p.1.de_ok(),
+    {
+        let name = seed.deserialize(QNameDeserializer::from_elem(
+            self.start.name().0,
+            self.de.reader.decoder(),
+        )?)?;
+        Ok((name, self))
+    }
+//@end
+//@extract de::map::ElementDeserializer::unit_variant | src/de/map.rs :: impl<'de, 'd, R, E> de::VariantAccess<'de> for ElementDeserializer<'de, 'd, R, E> where R: XmlRead<'de>, E: EntityResolver, :: fn unit_variant | serves=C07 features=serialize
+//@rewrite-opt Self::Error ==> DeError
+    fn unit_variant(self) -> Result<(), DeError>
+        requires self.de_ok(),
+    {
+        // Consume subtree
+        self.de.read_to_end(self.start.name())
+    }
+//@end
+//@extract de::map::ElementDeserializer::newtype_variant_seed | src/de/map.rs :: impl<'de, 'd, R, E> de::VariantAccess<'de> for ElementDeserializer<'de, 'd, R, E> where R: XmlRead<'de>, E: EntityResolver, :: fn newtype_variant_seed | serves=C07 features=serialize
+//@rewrite-opt Self::Error ==> DeError
+    fn newtype_variant_seed<T>(self, seed: T) -> Result<T::Value, DeError>
+    where
+        T: DeserializeSeed<'de>,
+        requires self.de_ok(),
+    {
+        seed.deserialize(self)
+    }
+//@end
+//@extract de::map::ElementDeserializer::tuple_variant | src/de/map.rs :: impl<'de, 'd, R, E> de::VariantAccess<'de> for ElementDeserializer<'de, 'd, R, E> where R: XmlRead<'de>, E: EntityResolver, :: fn tuple_variant | serves=C07 features=serialize
+//@rewrite-opt Self::Error ==> DeError
+    fn tuple_variant<V>(self, len: usize, visitor: V) -> Result<V::Value, DeError>
+    where
+        V: Visitor<'de>,
+        requires self.de_ok(),
+    {
+        self.deserialize_tuple(len, visitor)
+    }
+//@end
+//@extract de::map::ElementDeserializer::struct_variant | src/de/map.rs :: impl<'de, 'd, R, E> de::VariantAccess<'de> for ElementDeserializer<'de, 'd, R, E> where R: XmlRead<'de>, E: EntityResolver, :: fn struct_variant | serves=C07 features=serialize
+//@rewrite-opt Self::Error ==> DeError
+    fn struct_variant<V>(
+        self,
+        fields: &'static [&'static str],
+        visitor: V,
+    ) -> Result<V::Value, DeError>
+    where
+        V: Visitor<'de>,
+        requires self.de_ok(),
     {
         self.deserialize_struct("", fields, visitor)
     }
